@@ -163,7 +163,7 @@ func onlyCalledFrom(c *Check, rel, fn string, callers ...string) string {
 			for _, ins := range b.Instrs {
 				var ops []*ssa.Value
 				for _, op := range ins.Operands(ops) {
-					if op != nil && *op == ssa.Value(f) && !allowed[g.Name()] {
+					if op != nil && *op == ssa.Value(f) && !allowedCaller(c.P, g, allowed, 0) {
 						bad = fn + " is also used in " + fnName(g)
 					}
 				}
@@ -171,6 +171,33 @@ func onlyCalledFrom(c *Check, rel, fn string, callers ...string) string {
 		}
 	}
 	return bad
+}
+
+// allowedCaller: g is one of the named functions, a closure of one, or a helper that is only
+// ever called (never used as a value) from allowed callers: a piece split out of one of them.
+func allowedCaller(p *Program, g *ssa.Function, allowed map[string]bool, depth int) bool {
+	if allowed[g.Name()] {
+		return true
+	}
+	if depth > 2 {
+		return false
+	}
+	if par := g.Parent(); par != nil {
+		return allowedCaller(p, par, allowed, depth+1)
+	}
+	calls, asValue := directCallSites(p, g)
+	if asValue || len(calls) == 0 {
+		return false
+	}
+	for _, call := range calls {
+		if call.Parent() == g {
+			continue
+		}
+		if !allowedCaller(p, call.Parent(), allowed, depth+1) {
+			return false
+		}
+	}
+	return true
 }
 
 // usedOnlyUnderLenOne: after the loop, variable v is only appended to, measured with
@@ -366,6 +393,8 @@ func (c *Check) graphConsumers() {
 				key := "consumers:" + f.Name()
 				if why, ok := reviewed[f.Name()]; ok {
 					c.ok("C08-R2", key, p.relFile(call.Pos()), f.Name()+" consumes the map-ordered node list of a freshly built graph", "reviewed: "+why)
+				} else if allowedCaller(p, f, map[string]bool{"newTrimmedGraph": true}, 0) {
+					c.ok("C08-R2", key, p.relFile(call.Pos()), f.Name()+" is a piece of newTrimmedGraph (only called from it)", "its graph is handed back to newTrimmedGraph, whose sort discipline is checked below")
 				} else {
 					c.bad("C08-R2", key, p.relFile(call.Pos()), f.Name()+" consumes the map-ordered node list of rpt.newGraph but is not a reviewed consumer (it must sort the nodes or only aggregate them)")
 				}
@@ -405,9 +434,33 @@ func (c *Check) graphConsumers() {
 	} else {
 		c.bad("C08-R2", "consumers:newTrimmedGraph.sort", p.relFile(ntg.Pos()), "newTrimmedGraph has a return that is not dominated by g.SortNodes: report entries would appear in map order")
 	}
-	// the rebuilt graph after top-N selection must be re-sorted: every newGraph(nodesKept) call is followed by SortNodes in its block
-	for _, b := range ntg.Blocks {
-		for i, ins := range b.Instrs {
+	// the rebuilt graph after top-N selection must be re-sorted: every newGraph(nodesKept) call
+	// (in newTrimmedGraph or in a piece split out of it) is followed by SortNodes on every path
+	// to the return of newTrimmedGraph
+	var sortedAfter func(call ssa.CallInstruction, depth int) bool
+	sortedAfter = func(call ssa.CallInstruction, depth int) bool {
+		if sortOnAllPaths(call.Block(), call) {
+			return true
+		}
+		h := call.Parent()
+		if h == ntg || depth > 2 {
+			return false
+		}
+		// unsorted on some path to the helper's return: every call of the helper must be
+		// followed by a sort in its caller
+		sites, asValue := directCallSites(p, h)
+		if asValue || len(sites) == 0 {
+			return false
+		}
+		for _, s2 := range sites {
+			if !sortedAfter(s2, depth+1) {
+				return false
+			}
+		}
+		return true
+	}
+	for _, b := range helperBlocks(ntg, 2) {
+		for _, ins := range b.Instrs {
 			call, ok := ins.(*ssa.Call)
 			if !ok || call.Call.StaticCallee() != ng {
 				continue
@@ -416,10 +469,7 @@ func (c *Check) graphConsumers() {
 				continue
 			}
 			key := fmt.Sprintf("consumers:newTrimmedGraph.rebuild@%d", len(c.Obls))
-			_ = i
-			// on every path from the rebuild to a return, a SortNodes call occurs
-			good := sortOnAllPaths(b, call)
-			if good {
+			if sortedAfter(call, 0) {
 				c.ok("C08-R2", key, p.relFile(call.Pos()), "graph rebuilt with a kept-set in newTrimmedGraph", "a SortNodes call follows on every path to return")
 			} else {
 				c.bad("C08-R2", key, p.relFile(call.Pos()), "a graph rebuilt with a kept-set in newTrimmedGraph can be returned without being re-sorted")
